@@ -9,9 +9,27 @@ namespace Drive.Recorder
 open Drive PlaybackModel.Recorder
 
 /-! ### value texts -/
+/-- the exception type the harness uses for "an exception the serializer rejects" -/
+def unserExc : String := "UnserError"
+
+/-- `_serializable_exception_form`: the exception itself when `encode` accepts it, else `{'error_type', 'error_repr'}` -/
 def valText : Val → String
   | .atom s => s
-  | .excForm t => "exc:" ++ t
+  | .excForm t => if t == unserExc then "{\"error_repr\":\"UnserError()\",\"error_type\":cls:UnserError}" else "exc:" ++ t
+
+/-- does `jsonpickle.encode` raise on this stored entry?  (the harness's unserialisable value carries the text `<unser>`,
+wherever it is embedded; an exception of type `UnserError` stored as such) -/
+def textUnser (s : String) : Bool := (s.splitOn "<unser>").length > 1 || (s.splitOn "exc:UnserError").length > 1
+def valUnser : Val → Bool
+  | .atom s => textUnser s
+  | .excForm _ => false
+def rvalUnser : RVal → Bool
+  | .value v => valUnser v
+  | .exception t => t == unserExc
+  | .sent args kwargs => args.any valUnser || kwargs.any (fun kv => valUnser kv.2)
+  | .prepared v => valUnser v
+  | .raw v => valUnser v
+def dataUnser (d : Data) : Bool := d.any (fun kv => rvalUnser kv.2)
 
 def outText : Out → String
   | .ret v => valText v
@@ -88,7 +106,10 @@ def siteKeys (sp : SiteSpec) (a : Args) : Option (Key × List Key) :=
     | .all => true
     | _ => false
   match alias?, captured sp.capture a, sp.fallbacks with
-  | some al, some (ps, ks), some fb => some (Key.input al tup ps ks, fb.map (fun f => Key.input f tup ps ks))
+  | some al, some (ps, ks), some fb =>
+    -- the captured arguments are encoded into the key text: a value the serializer rejects makes key creation raise
+    if ps.any valUnser || ks.any (fun kv => valUnser kv.2) then Option.none
+    else some (Key.input al tup ps ks, fb.map (fun f => Key.input f tup ps ks))
   | _, _, _ => Option.none
 
 def inCfgOf (sp : SiteSpec) : InCfg :=
@@ -346,7 +367,8 @@ def histH : Handler := fun j => do
           | _ => .error "bad extractor field") (← asArr e)
         .ok (some (Extracted.ok kvs))
     let cfg : OpCfg := { cls := ← strField r "cls", params := ← parseParams (fieldD r "params" Json.null),
-                         extractor := extractor, saveFails := (asBool (fieldD r "saveFails" (.bool false))).toOption.getD false }
+                         extractor := extractor, saveFails := (asBool (fieldD r "saveFails" (.bool false))).toOption.getD false,
+                         unser := dataUnser }
     let twin := runPlain [] prog
     if kind == "op" then
       let (s1, e) := runOperation aliasOracle cfg s0 prog
